@@ -72,7 +72,7 @@ def strat(tier):
                 d["mesh"] = dict(kind="uni", n=n, length=L, x0=0.0)
             return d
         return st.builds(mk,
-                         gen.logf(-1, 1), st.sampled_from([dict(name="extrapol1"), dict(name="extrapol3"), dict(name="muscl", limiter="minmod")]),
+                         st.one_of(gen.logf(-1, 1), gen.logf(-1, 1), gen.logf(-9, 3)), st.sampled_from([dict(name="extrapol1"), dict(name="extrapol3"), dict(name="muscl", limiter="minmod")]),
                          st.sampled_from(ex + im + ["gear", "gear"]), gen.f(0.1, 0.8), gen.f(0.1, 0.8), _fields(kind), st.booleans(), st.builds(lambda first, rest: [first] + rest, solve, st.lists(st.one_of(solve, solve, restart), min_size=1, max_size=4)),
                          st.booleans())
     return _problem().flatmap(hist)
